@@ -56,65 +56,89 @@ def generate_lib():
             parts = v.split(" @@ ")
             parts += [""] * (4 - len(parts))
             sfields.setdefault(parts[0], []).append((parts[1], parts[2], [a.strip() for a in parts[3].split(" ;; ") if a.strip()]))
-    # ---- IntoMsg::into_msg
-    key = [k for k in arms if k.startswith("into_response.rs::") and k.endswith("into_msg#m0")]
-    if len(key) != 1:
-        raise TranslateError("into_response.rs: the match of IntoMsg::into_msg was not found (%s)" % key)
-    table = []
-    arm_feats = []
-    default_seen = False
-    for pat, guard, body in arms[key[0]]:
-        feats = cfg_features(armattrs.get((key[0], nows(pat)), []), "into_msg arm %s" % pat[:40])
-        if pat == "_":
-            default_seen = True
-            if "Err" not in body:
-                raise TranslateError("into_msg: the default arm is not an error: %s" % body[:80])
-            continue
-        m = re.fullmatch(r"CosmosMsg\s*::\s*(\w+)\s*(.*)", pat, flags=re.S)
-        if not m or guard:
-            raise TranslateError("into_msg: unexpected arm pattern %s" % pat)
-        variant = m.group(1)
-        arm_feats.append((variant, feats))
-        if nows(body) == nows(pat):
-            table.append((variant, "keep"))
-        elif "Err" in body and "CosmosMsg" not in body:
-            table.append((variant, "err"))
-        else:
-            raise TranslateError("into_msg: arm %s => %s is neither the same message nor an error" % (pat, body[:80]))
-    if not default_seen:
-        raise TranslateError("into_msg: no default arm")
-    lits = [x for x in structlits if x[0].startswith("into_response.rs::") and x[0].endswith("into_msg") and nows(x[1]) == "SubMsg"]
-    if len(lits) != 1:
-        raise TranslateError("into_msg: expected exactly one `SubMsg { .. }` literal, found %d" % len(lits))
-    if lits[0][3]:
-        raise TranslateError("into_msg: the SubMsg literal uses a rest expression: %s" % lits[0][3])
-    fmap = []
-    for f in lits[0][2].split(" ;; "):
-        name, _, expr = f.partition("=")
-        name, expr = name.strip(), nows(expr)
-        if expr == name:
-            src = name
-        elif expr == "self." + name or re.fullmatch(r"self\.\w+", expr):
-            src = expr[len("self."):]
-        else:
-            raise TranslateError("into_msg: field %s of the SubMsg literal is `%s`, not a field of self" % (name, expr))
-        fmap.append((name, src))
-    # ---- Remote
-    rk = [k for k in sdefs if k == "types.rs::Remote"]
-    if not rk:
-        raise TranslateError("types.rs: struct Remote not found")
-    rattrs = [nows(a)[2:-1] if nows(a).startswith("#[") else nows(a) for a in sdefs[rk[0]]]
-    rfields = [(n, nows(t), [nows(a)[2:-1] for a in attrs]) for n, t, attrs in sfields.get(rk[0], [])]
-    # schema_name of Remote: the string literal returned by the hand-written JsonSchema impl
-    schema_name = None
-    types_src = open(os.path.join(common.REPO, "sylvia", "src", "types.rs")).read()
-    m = re.search(r"JsonSchema\s+for\s+Remote<[^{]*\{\s*fn\s+schema_name\s*\(\s*\)\s*->\s*[\w:]+\s*\{\s*\"([^\"]*)\"\s*\.\s*to_owned\s*\(\s*\)\s*\}", types_src)
-    if not m:
-        raise TranslateError("types.rs: Remote's schema_name is not a string literal")
-    schema_name = m.group(1)
-    variant_feats = cosmos_variant_features()
-    feat_table = sylvia_feature_table()
-    LAST_LIB.update({"arm_feats": arm_feats, "variant_feats": variant_feats, "feat_table": feat_table})
+    # Each part is translated on its own: a shape the translator does not recognise empties that part (nothing stale is
+    # ever proved) and is reported by the properties that depend on it.
+    part_errors = {}
+
+    def part_into_msg():
+        # ---- IntoMsg::into_msg
+        key = [k for k in arms if k.startswith("into_response.rs::") and k.endswith("into_msg#m0")]
+        if len(key) != 1:
+            raise TranslateError("into_response.rs: the match of IntoMsg::into_msg was not found (%s)" % key)
+        table = []
+        arm_feats = []
+        default_seen = False
+        for pat, guard, body in arms[key[0]]:
+            feats = cfg_features(armattrs.get((key[0], nows(pat)), []), "into_msg arm %s" % pat[:40])
+            if pat == "_":
+                default_seen = True
+                if "Err" not in body:
+                    raise TranslateError("into_msg: the default arm is not an error: %s" % body[:80])
+                continue
+            m = re.fullmatch(r"CosmosMsg\s*::\s*(\w+)\s*(.*)", pat, flags=re.S)
+            if not m or guard:
+                raise TranslateError("into_msg: unexpected arm pattern %s" % pat)
+            variant = m.group(1)
+            arm_feats.append((variant, feats))
+            if nows(body) == nows(pat):
+                table.append((variant, "keep"))
+            elif "Err" in body and "CosmosMsg" not in body:
+                table.append((variant, "err"))
+            else:
+                raise TranslateError("into_msg: arm %s => %s is neither the same message nor an error" % (pat, body[:80]))
+        if not default_seen:
+            raise TranslateError("into_msg: no default arm")
+        lits = [x for x in structlits if x[0].startswith("into_response.rs::") and x[0].endswith("into_msg") and nows(x[1]) == "SubMsg"]
+        if len(lits) != 1:
+            raise TranslateError("into_msg: expected exactly one `SubMsg { .. }` literal, found %d" % len(lits))
+        if lits[0][3]:
+            raise TranslateError("into_msg: the SubMsg literal uses a rest expression: %s" % lits[0][3])
+        fmap = []
+        for f in lits[0][2].split(" ;; "):
+            name, _, expr = f.partition("=")
+            name, expr = name.strip(), nows(expr)
+            if expr == name:
+                src = name
+            elif expr == "self." + name or re.fullmatch(r"self\.\w+", expr):
+                src = expr[len("self."):]
+            else:
+                raise TranslateError("into_msg: field %s of the SubMsg literal is `%s`, not a field of self" % (name, expr))
+            fmap.append((name, src))
+        return table, arm_feats, fmap
+
+    def part_remote():
+        # ---- Remote
+        rk = [k for k in sdefs if k == "types.rs::Remote"]
+        if not rk:
+            raise TranslateError("types.rs: struct Remote not found")
+        rattrs = [nows(a)[2:-1] if nows(a).startswith("#[") else nows(a) for a in sdefs[rk[0]]]
+        rfields = [(n, nows(t), [nows(a)[2:-1] for a in attrs]) for n, t, attrs in sfields.get(rk[0], [])]
+        # schema_name of Remote: the string literal returned by the hand-written JsonSchema impl
+        schema_name = None
+        types_src = open(os.path.join(common.REPO, "sylvia", "src", "types.rs")).read()
+        # (however the String is built from it: "..".to_owned(), String::from(".."), "..".into(), format!(".."))
+        m = re.search(r"JsonSchema\s+for\s+Remote<[^{]*\{.*?fn\s+schema_name\s*\(\s*\)\s*->\s*[\w:]+\s*\{(.*?)\}", types_src, flags=re.S)
+        lits = re.findall(r'"([^"\\{}]*)"', m.group(1)) if m else []
+        if len(lits) != 1 or re.search(r"\b(type_name|module_path|format_args|concat)\b|\{\}", m.group(1)):
+            raise TranslateError("types.rs: Remote's schema_name is not a single string literal")
+        schema_name = lits[0]
+        return rattrs, rfields, schema_name
+
+    try:
+        table, arm_feats, fmap = part_into_msg()
+    except TranslateError as e:
+        (table, arm_feats, fmap), part_errors["into_msg"] = ([], [], []), str(e)
+    try:
+        rattrs, rfields, schema_name = part_remote()
+    except TranslateError as e:
+        (rattrs, rfields, schema_name), part_errors["remote"] = ([], [], ""), str(e)
+    try:
+        variant_feats = cosmos_variant_features()
+        feat_table = sylvia_feature_table()
+    except TranslateError as e:
+        (variant_feats, feat_table), part_errors["features"] = ([], []), str(e)
+    LAST_LIB.clear()
+    LAST_LIB.update({"arm_feats": arm_feats, "variant_feats": variant_feats, "feat_table": feat_table, "errors": part_errors})
     cs = common.coq_string
     text = "\n".join([
         "(* GENERATED on every run by py/verif/translate.py from /repo/sylvia/src. Do not edit. *)",
@@ -367,73 +391,106 @@ def kind_to_idents(matches, key, name):
     return "Definition %s (k : kind) : list string :=\n  match k with\n%s\n  end.\n" % (name, body), table
 
 
+STUBS = {"kind": "Definition %s (s : string) : option kind := None.\n",
+         "tag": "Definition %s (s : string) : option string := None.\n",
+         "kstr": "Definition %s (k : kind) : string := \"\".\n",
+         "kids": "Definition %s (k : kind) : list string := [].\n"}
+
+# the properties whose model depends directly on a table (a table that cannot be regenerated is a broken translator
+# obligation for them; the other properties see a stub and are decided by their own proofs and correspondence runs)
+ALL_PROPS = {"C%02d" % i for i in range(1, 21)}
+PRIMARY = {
+    "msg_kind_of_string": ALL_PROPS - {"C05", "C10", "C19", "C20"},
+    "override_kind_of_string": {"C04", "C06", "C12", "C14"},
+    "msg_attr_kind_of_string": {"C17"},
+    "sv_attr_of_string": {"C13", "C17", "C18"},
+    "reply_on_tag_of_string": {"C07", "C08", "C14", "C18"},
+    "data_flag_of_string": {"C09", "C18"},
+    "feature_of_string": {"C06", "C07", "C18"},
+    "payload_flag_of_string": {"C08", "C18"},
+    "custom_key_of_string": {"C11", "C18"},
+    "msg_arg_of_string": {"C16", "C18", "C07", "C08"},
+    "msg_name": {"C01", "C03", "C04"}, "wrapper_name": {"C03", "C04"}, "accessor_name": {"C03", "C04", "C10"},
+    "wrapper_accessor_name": {"C03", "C04", "C06"}, "ep_name": {"C04", "C05", "C06"},
+    "ctx_values": {"C02", "C06"}, "ctx_params_template": {"C02"}, "ctx_type_template": {"C02"}, "result_type_template": {"C02"},
+}
+
+
 def generate():
-    """Returns (coq_text, info dict). Raises TranslateError/BuildError."""
+    """Returns (coq_text, info dict, matches, templates, diags). A table whose source no longer has the expected shape is
+    emitted as a stub (never a stale copy) and listed in info["errors"]; only unparsable sources raise."""
     matches, templates, diags = fetch_tables()
     parts = ["(* GENERATED on every run by py/verif/translate.py from /repo/sylvia-derive/src. Do not edit. *)",
              "From Coq Require Import String List.", "Import ListNotations.", "Require Import SV.Model.Kinds.",
              "Open Scope string_scope.", ""]
-    info = {}
-    t, info["msg_kind"] = string_to_kind(matches, "types/msg_type.rs::MsgType::new#m0", "msg_kind_of_string")
-    parts.append(t)
-    t, info["override_kind"] = string_to_kind(
-        matches, "parser/attributes/override_entry_point.rs::<OverrideEntryPointasParse>::parse#m0",
-        "override_kind_of_string")
-    parts.append(t)
-    t, info["msg_attr_kind"] = string_to_kind(
-        matches, "parser/attributes/attr.rs::<MsgAttrForwardingasParse>::parse#m0", "msg_attr_kind_of_string")
-    parts.append(t)
-    t, info["sv_attr"] = string_to_tag(
-        matches, "parser/attributes/mod.rs::SylviaAttribute::match_attribute#m0", "sv_attr_of_string",
-        r"Some\s*\(\s*Self\s*::\s*(\w+)\s*\)", allow_default_none=True)
-    parts.append(t)
-    t, info["reply_on"] = string_to_tag(matches, "parser/attributes/msg.rs::ReplyOn::new#m0", "reply_on_tag_of_string",
-                                        r"Ok\s*\(\s*Self\s*::\s*(\w+)\s*\)")
-    parts.append(t)
-    t, info["data_flag"] = string_to_tag(matches, "parser/attributes/data.rs::<DataFieldParamsasParse>::parse#m0",
-                                         "data_flag_of_string", r"data\s*\.\s*(\w+)\s*=\s*true")
-    parts.append(t)
-    t, info["feature"] = string_to_tag(matches, "parser/attributes/features.rs::<SylviaFeaturesasParse>::parse#m0",
-                                       "feature_of_string", r"features\s*\.\s*(\w+)\s*=\s*true")
-    parts.append(t)
-    t, info["payload_flag"] = string_to_tag(matches, "parser/attributes/payload.rs::<PayloadFieldParamasParse>::parse#m0",
-                                            "payload_flag_of_string", r"^(\(\s*\))$")
+    info = {"errors": {}}
+
+    def table(shape, name, fn, *args, post=None, **kw):
+        try:
+            t, val = fn(matches, *args, **kw)
+            if post:
+                t = post(t)
+            parts.append(t)
+            return val
+        except TranslateError as e:
+            info["errors"][name] = str(e)
+            parts.append("(* NOT TRANSLATED: %s *)\n" % str(e).replace("*)", "* )") + STUBS[shape] % name)
+            return None
+
+    info["msg_kind"] = table("kind", "msg_kind_of_string", string_to_kind, "types/msg_type.rs::MsgType::new#m0", "msg_kind_of_string")
+    info["override_kind"] = table("kind", "override_kind_of_string", string_to_kind,
+                                  "parser/attributes/override_entry_point.rs::<OverrideEntryPointasParse>::parse#m0", "override_kind_of_string")
+    info["msg_attr_kind"] = table("kind", "msg_attr_kind_of_string", string_to_kind,
+                                  "parser/attributes/attr.rs::<MsgAttrForwardingasParse>::parse#m0", "msg_attr_kind_of_string")
+    info["sv_attr"] = table("tag", "sv_attr_of_string", string_to_tag, "parser/attributes/mod.rs::SylviaAttribute::match_attribute#m0",
+                            "sv_attr_of_string", r"Some\s*\(\s*Self\s*::\s*(\w+)\s*\)", allow_default_none=True)
+    info["reply_on"] = table("tag", "reply_on_tag_of_string", string_to_tag, "parser/attributes/msg.rs::ReplyOn::new#m0",
+                             "reply_on_tag_of_string", r"Ok\s*\(\s*Self\s*::\s*(\w+)\s*\)")
+    info["data_flag"] = table("tag", "data_flag_of_string", string_to_tag, "parser/attributes/data.rs::<DataFieldParamsasParse>::parse#m0",
+                              "data_flag_of_string", r"data\s*\.\s*(\w+)\s*=\s*true")
+    info["feature"] = table("tag", "feature_of_string", string_to_tag, "parser/attributes/features.rs::<SylviaFeaturesasParse>::parse#m0",
+                            "feature_of_string", r"features\s*\.\s*(\w+)\s*=\s*true")
     # the payload arm body is `()`: tag it "raw"
-    t = t.replace('Some "()"', 'Some "raw"').replace('Some "( )"', 'Some "raw"')
-    parts.append(t)
-    t, info["custom_key"] = string_to_tag(matches, "parser/attributes/custom.rs::<CustomasParse>::parse#m0",
-                                          "custom_key_of_string", r"custom\s*\.\s*(\w+)\s*=")
-    parts.append(t)
-    t, info["msg_arg"] = string_to_tag(matches, "parser/attributes/msg.rs::<ArgumentParserasParse>::parse#m0",
-                                       "msg_arg_of_string", r"result\s*\.\s*(\w+)")
-    parts.append(t)
+    info["payload_flag"] = table("tag", "payload_flag_of_string", string_to_tag, "parser/attributes/payload.rs::<PayloadFieldParamasParse>::parse#m0",
+                                 "payload_flag_of_string", r"^(\(\s*\))$",
+                                 post=lambda t: t.replace('Some "()"', 'Some "raw"').replace('Some "( )"', 'Some "raw"'))
+    info["custom_key"] = table("tag", "custom_key_of_string", string_to_tag, "parser/attributes/custom.rs::<CustomasParse>::parse#m0",
+                               "custom_key_of_string", r"custom\s*\.\s*(\w+)\s*=")
+    info["msg_arg"] = table("tag", "msg_arg_of_string", string_to_tag, "parser/attributes/msg.rs::<ArgumentParserasParse>::parse#m0",
+                            "msg_arg_of_string", r"result\s*\.\s*(\w+)")
 
-    t, msg_name = kind_to_string(matches, "types/msg_type.rs::MsgType::emit_msg_name#m0", "msg_name")
-    parts.append(t)
-    t, _ = kind_to_string(matches, "types/msg_type.rs::MsgType::emit_msg_wrapper_name#m0", "wrapper_name",
-                          fallback=("emit_msg_name", msg_name))
-    parts.append(t)
-    t, acc = kind_to_string(matches, "types/msg_type.rs::MsgType::as_accessor_name#m0", "accessor_name")
-    parts.append(t)
-    t, _ = kind_to_string(matches, "types/msg_type.rs::MsgType::as_accessor_wrapper_name#m0", "wrapper_accessor_name",
-                          fallback=("as_accessor_name", acc))
-    parts.append(t)
-    t, info["ep_name"] = kind_to_string(matches, "types/msg_type.rs::MsgType::emit_ep_name#m0", "ep_name")
-    parts.append(t)
-    t, info["ctx_values"] = kind_to_idents(matches, "types/msg_type.rs::MsgType::emit_ctx_values#m0", "ctx_values")
-    parts.append(t)
-    t, info["ctx_params"] = kind_to_string(matches, "types/msg_type.rs::MsgType::emit_ctx_params#m0", "ctx_params_template")
-    parts.append(t)
-    t, info["ctx_type"] = kind_to_string(matches, "types/msg_type.rs::MsgType::emit_ctx_type#m0", "ctx_type_template")
-    parts.append(t)
-    t, info["result_type"] = kind_to_string(matches, "types/msg_type.rs::MsgType::emit_result_type#m0", "result_type_template")
-    parts.append(t)
+    msg_name = table("kstr", "msg_name", kind_to_string, "types/msg_type.rs::MsgType::emit_msg_name#m0", "msg_name")
+    table("kstr", "wrapper_name", kind_to_string, "types/msg_type.rs::MsgType::emit_msg_wrapper_name#m0", "wrapper_name",
+          fallback=("emit_msg_name", msg_name) if msg_name else None)
+    acc = table("kstr", "accessor_name", kind_to_string, "types/msg_type.rs::MsgType::as_accessor_name#m0", "accessor_name")
+    table("kstr", "wrapper_accessor_name", kind_to_string, "types/msg_type.rs::MsgType::as_accessor_wrapper_name#m0", "wrapper_accessor_name",
+          fallback=("as_accessor_name", acc) if acc else None)
+    info["ep_name"] = table("kstr", "ep_name", kind_to_string, "types/msg_type.rs::MsgType::emit_ep_name#m0", "ep_name")
+    info["ctx_values"] = table("kids", "ctx_values", kind_to_idents, "types/msg_type.rs::MsgType::emit_ctx_values#m0", "ctx_values")
+    info["ctx_params"] = table("kstr", "ctx_params_template", kind_to_string, "types/msg_type.rs::MsgType::emit_ctx_params#m0", "ctx_params_template")
+    info["ctx_type"] = table("kstr", "ctx_type_template", kind_to_string, "types/msg_type.rs::MsgType::emit_ctx_type#m0", "ctx_type_template")
+    info["result_type"] = table("kstr", "result_type_template", kind_to_string, "types/msg_type.rs::MsgType::emit_result_type#m0", "result_type_template")
 
-    # the default entry point list of EntryPoints::emit (array literal inside the function)
     info["n_templates"] = len(templates)
     info["n_diags"] = len(diags)
     text = "\n".join(parts) + "\n"
     return text, info, matches, templates, diags
+
+
+def regen_tables(run):
+    """Regenerates GenTables.v for a check and reports what could not be translated (see PRIMARY)."""
+    try:
+        text, info, matches, templates, diags = generate()
+    except TranslateError as e:
+        run.translator_error(str(e))
+        return None
+    write_gentables(text)
+    for name, msg in info["errors"].items():
+        if run.pid in PRIMARY.get(name, ALL_PROPS):
+            run.translator_error("table %s: %s" % (name, msg))
+        else:
+            run.notes.append("table %s could not be regenerated (stub emitted; not a table of this property's model): %s" % (name, msg))
+    return info, matches, templates, diags
 
 
 def write_gentables(text):
